@@ -285,7 +285,8 @@ def check_coercion(ctx):
                 ctx.check("C11.C", f"LinkLayerCreate:default-of-{f}-is-a-{coerced[f]}", ok_d, f"the default at the position of `{f}` is {d_!r}; it is used when the argument array leaves the field undefined", "netqasm/qlink_compat.py", trivial=True)
     # arguments array -> kwargs in field order, starting with [remote_node_id, purpose_id]
     zips = [c for c in A.calls_in(g) if dotted(c.func) == "zip"]
-    ok = bool(zips) and A.norm(zips[0].args[1]) == "LinkLayerCreate._fields" and A.norm(zips[0].args[0]) == "args"
+    gd = A.single_defs(g)
+    ok = bool(zips) and A.norm(A.expand(zips[0].args[1], gd)) == "LinkLayerCreate._fields" and A.norm(zips[0].args[0]) == "args"
     ctx.check("C11.C", "_get_create_request:arguments-zipped-with-fields-in-order", ok, "the argument list is not zipped with LinkLayerCreate._fields in order", ex.loc(g))
 
 
@@ -492,7 +493,16 @@ def check_result_arrays(ctx):
     sl = [c for c in A.calls_in(cs) if A.call_name(c) == "get_future_slice"]
     ok = False
     if len(sl) == 1 and sl[0].args:
-        ok = A.norm(sl[0].args[0]) == "slice(i*OK_FIELDS_K,(i+1)*OK_FIELDS_K)"
+        # pair i reads [i*OK_FIELDS_K, (i+1)*OK_FIELDS_K): the bounds are evaluated for i = 0, 1, 2 with i the variable iterating range(num_pairs)
+        its = [(x.target, x.iter) for x in ast.walk(cs) if isinstance(x, ast.For)] + [(g_.target, g_.iter) for x in ast.walk(cs) if isinstance(x, ast.ListComp) for g_ in x.generators]
+        its = [t_.id for t_, it_ in its if isinstance(t_, ast.Name) and A.norm(it_) == f"range({A.param_names(cs)[1]})"]
+        sb = A.slice_bounds(sl[0].args[0], A.single_defs(cs))
+        nf = ctx.ev.try_eval(ast.Name(id="OK_FIELDS_K", ctx=ast.Load()), b.module)
+        if len(its) == 1 and sb is not None and isinstance(nf, int):
+            try:
+                ok = all(G.peval(sb[0], {its[0]: k_, "OK_FIELDS_K": nf}) == k_ * nf and G.peval(sb[1], {its[0]: k_, "OK_FIELDS_K": nf}) == (k_ + 1) * nf for k_ in (0, 1, 2))
+            except Unknown:
+                ok = False
     mk = [c for c in A.calls_in(cs) if A.call_name(c) == "LinkLayerOKTypeK"]
     ok = ok and len(mk) == 1 and len(mk[0].args) == 1 and isinstance(mk[0].args[0], ast.Starred)
     ctx.check("C11.R", "_create_ent_info_k_slices:pair-i-reads-slice-i", ok, "entanglement info of pair i is not LinkLayerOKTypeK(*array[i*OK_FIELDS_K:(i+1)*OK_FIELDS_K])", b.loc(cs))
